@@ -23,7 +23,8 @@ META = {
 REAL_REPO = "/repo"
 REAL_BUILD = "/repo/_build"
 HARNESS = os.path.join(V.VERIF, "harness", "C20")
-MUTATING = {"set", "iadd", "isub", "iaddl", "imuls", "idivs", "iadds", "isubs", "assign"}
+MUTATING = {"set", "iadd", "isub", "iaddl", "imuls", "idivs", "iadds", "isubs", "assign", "setslice", "isubl", "assignl", "setnp"}
+BAD_KINDS = ("npint", "npf32", "np2d", "bytearray", "arrayi")
 
 
 # ----------------------------------------------------------------------------------------- environment
@@ -162,6 +163,10 @@ class Oracle:
 
     def step(self, t, hint=""):
         op = t[0]
+        if op == "bad2d":
+            return "!RuntimeError"            # NumPyVector around a two-dimensional array: Dune exception
+        if op == "new" and t[2] in BAD_KINDS:
+            return "!ValueError"              # documented rejection: "Incompatible buffer format." / not one-dimensional
         if op == "new":
             if self.dyn:
                 return self.fresh("d", qlist(t[3]))
@@ -170,8 +175,35 @@ class Oracle:
         n = len(x)
         xv = x.vals()
         vec = lambda vals: self.fresh("d" if self.dyn else "v", vals)
-        if op == "view":
+        if op in ("view", "ellipsis"):
             return self.shared("a", x.store, list(x.idx))
+        if op == "copyargs":
+            return self.fresh("v", self.conv(n, qlist(t[2])))
+        if op == "float":
+            return "s:" + fr(xv[0])
+        if op == "bufinfo":
+            return "i:%d" % n
+        if op == "setslice":
+            o = lambda s: None if s == "_" else int(s)
+            try:
+                idx = x.idx[slice(o(t[2]), o(t[3]), o(t[4]))]
+            except ValueError:
+                return "!ValueError"
+            vals = qlist(t[5])
+            if len(vals) == 1:
+                vals = vals * len(idx)
+            if len(vals) != len(idx):
+                return "!ValueError"
+            for i, v in zip(idx, vals):
+                x.store[i] = v
+            return "ok"
+        if op in ("getc", "getva", "getcopy", "getnp"):
+            op = "get"
+        if op == "setnp":
+            op = "set"
+        if op == "eqf":
+            return "b:%d" % (1 if xv == [Fraction(t[2])] else 0)
+        op = {"addt": "addl", "eqt": "eql", "rdotl": "dotl", "norm1r": "norm1", "norminfr": "norminf", "div2": "divs"}.get(op, op)
         if op == "slice":
             o = lambda s: None if s == "_" else int(s)
             try:
@@ -209,8 +241,11 @@ class Oracle:
         cmpop = self.dyn and op in ("eq", "ne", "eql")
         if op in ("add", "sub", "dot", "eq", "ne", "iadd", "isub", "assign") and not cmpop:
             y = self.conv(n, self.R[int(t[2])].vals())
-        elif op in ("addl", "raddl", "subl", "rsubl", "dotl", "eql", "iaddl") and not cmpop:
+        elif op in ("addl", "raddl", "subl", "rsubl", "dotl", "eql", "iaddl", "nel", "isubl", "assignl") and not cmpop:
             y = self.conv(n, qlist(t[2]))
+        if op == "nel": return "b:%d" % (0 if xv == y else 1)
+        if op == "isubl": x.put([a - b for a, b in zip(xv, y)]); return "ok"
+        if op == "assignl": x.put(y); return "ok"
         if op in ("add", "addl", "raddl"): return vec([a + b for a, b in zip(xv, y)])
         if op in ("sub", "subl"): return vec([a - b for a, b in zip(xv, y)])
         if op == "rsubl": return vec([b - a for a, b in zip(xv, y)])
@@ -300,6 +335,11 @@ def tv_oracle(case):
     out += ["set%d:ok" % i for i in range(n)]
     out.append("copy=" + ",".join(show(k, bump(k, v)) for k, v in elems))
     out.append("orig=" + ",".join(show(k, v) for k, v in elems))
+    out.append("neg:!TypeError")                       # size_t index: no negative indices for tuple vectors
+    out += ["bad%d:!RuntimeError" % i for i in range(n)]   # a value of another type is rejected (cast_error)
+    out.append("assign=" + ",".join(show(k, v) for k, v in elems))
+    j = next((i for i, (k, v) in enumerate(elems) if k == "v"), None)
+    out.append("alias=-" if j is None else "alias=" + show("v", [Fraction(99)] + elems[j][1][1:]))
     return " | ".join(out)
 
 
@@ -363,7 +403,7 @@ def judge(case, impl_line):
 VALS = [Fraction(v) for v in (0, 1, 2, 3, -1, -2, 5, 7, -4, 9)] + [Fraction(1, 2), Fraction(-3, 2), Fraction(1, 4), Fraction(100), Fraction(-1, 128), Fraction(5, 128)]
 SCAL = [Fraction(v) for v in (2, -1, 3, 0, 1, 4, -2)] + [Fraction(1, 2), Fraction(-1, 4)]
 DIVS = [Fraction(v) for v in (2, -1, 4, 1, -2)] + [Fraction(1, 2), Fraction(-1, 4), Fraction(8)]
-KINDS = ["list", "listf", "tuple", "args", "np", "nprev", "npstride", "array"]
+KINDS = ["list", "listf", "tuple", "args", "np", "nprev", "npstride", "array", "npcol", "memview"]
 
 
 TV_CASES = ["tv ; f 17 ; v 2,2 ; f 3 ; v 1,2,3", "tv ; v 1,2,3 ; v 1,2", "tv ; f 1/2 ; i 5 ; v 7"]
@@ -391,10 +431,13 @@ def gen(ctx, sizes):
     rvals = lambda k: [rv() for _ in range(k)]
     # (1) construction: every source kind x every length 0..n+2
     for n in sizes:
-        for kind in KINDS + ["noarg", "fact"]:
+        for kind in KINDS + ["noarg", "fact", "factgen"] + list(BAD_KINDS):
             for k in range(0, n + 3):
                 if kind == "noarg" and k > 0: continue
-                if kind == "fact" and k != n: continue
+                if kind in ("fact", "factgen") and k != n: continue
+                if kind in BAD_KINDS:
+                    if k in (0, n + 2): cases.append("new %d %s %s" % (n, kind, ql([Fraction(i + 1) for i in range(k)])))
+                    continue
                 if kind == "args" and k == 1 and n == 1: pass
                 cases.append("new %d %s %s ; iter 0 ; len 0 ; str 0 ; repr 0" % (n, kind, ql(rvals(k))))
     # (2) indices -n-2 .. n+1: get, set on the vector, set/get through a view, after-state
@@ -470,9 +513,40 @@ def gen(ctx, sizes):
                          "norm1 0 ; norm22 0 ; norminf 0 ; assign 0 1 ; set 0 0 7 ; get 1 0" % (pre, n, ql(vals), n, ql(w)))
             cases.append("%s ; new %d list %s ; addl 0 %s ; raddl 0 %s ; subl 0 %s ; rsubl 0 %s ; dotl 0 %s ; eql 0 %s ; iaddl 0 %s" % ((pre, n, ql(vals)) + (ql(w),) * 7))
         cases.append("%s ; new 0 list - ; len 0 ; iter 0 ; get 0 0 ; get 0 -1 ; norm1 0" % pre)
+        cases.append("%s ; new 0 noarg - ; len 0 ; iter 0 ; get 0 0 ; repr 0 ; new 2 list 1,2 ; assign 0 1 ; iter 0" % pre)
         cases.append("%s ; new 3 list 1,2,3 ; new 2 list 5,6 ; assign 0 1 ; len 0 ; set 0 0 9 ; get 1 0" % pre)
     # (7) TupleVector (every type tuple is a JIT module: one in quick, three in thorough): model c20_tv_*, theorem C20_tuple
     cases += TV_CASES[:1] if ctx.quick else TV_CASES
+    # (9) API-coverage round: the remaining bound entry points (see mutants/C20/API_COVERAGE.md)
+    for n in sizes:
+        x = rvals(n)
+        pre = "new %d list %s ; " % (n, ql(x))
+        for k in (1, n, n + 1):
+            cases.append(pre + "copyargs 0 %s ; set 1 0 5 ; get 0 0" % ql(rvals(k)))
+        if n == 1:
+            cases.append(pre + "float 0 ; eqf 0 %s ; eqf 0 %s" % (fr(x[0]), fr(x[0] + 1)))
+        for k in sorted({0, max(n - 1, 0), n, n + 1}):
+            l = rvals(k)
+            cases.append(pre + "nel 0 %s ; nel 0 %s ; addt 0 %s ; eqt 0 %s ; eqt 0 %s ; rdotl 0 %s ; isubl 0 %s ; assignl 0 %s ; get 0 -1" % (ql(l), ql(x), ql(l), ql(l), ql(x), ql(l), ql(l), ql(l)))
+        cases.append(pre + "norm1r 0 ; norminfr 0 ; div2 0 4 ; bufinfo 0 ; ellipsis 0 ; set 2 0 44 ; get 0 0 ; view 0 ; bufinfo 3")
+        cases.append(pre + " ; ".join("getnp 0 %d" % i for i in range(-n - 1, n + 1)) + " ; " + " ; ".join("setnp 0 %d 6" % i for i in (-n - 1, -1, 0, n)))
+        bnd = ["_", "0", "1", "-1", str(n), str(-n - 1)]
+        for a in bnd:
+            for b in bnd:
+                for c in ("_", "2", "-1"):
+                    m = len(range(n)[slice(*[None if t == "_" else int(t) for t in (a, b, c)])])
+                    for vals in ([Fraction(7)], [Fraction(10 + i) for i in range(m)], [Fraction(1), Fraction(2), Fraction(3)][:m + 1] + [Fraction(4)] * (m + 1 > 3)):
+                        if rng.random() < (0.5 if ctx.quick else 1.0):
+                            cases.append(pre + "view 0 ; setslice %d %s %s %s %s ; get 0 0" % (rng.randrange(2), a, b, c, ql(vals)))
+        cases.append(pre + "setslice 0 _ _ 0 1")
+    for n in (1, 3, 6):
+        base = [Fraction(i + 1) for i in range(n)]
+        for (a, b, c) in [("_", "_", "_"), ("_", "_", "2"), ("_", "_", "-1"), ("_", "_", "-2")]:
+            m = len(range(n)[slice(*[None if t == "_" else int(t) for t in (a, b, c)])])
+            cases.append(" ; ".join(["npv", "new %d list %s" % (n, ql(base)), "slice 0 %s %s %s" % (a, b, c)] +
+                                    [o % i for i in range(m) for o in ("getc 1 %d", "getva 1 %d", "getcopy 1 %d")]))
+    cases.append("npv ; bad2d")
+    cases.append("tva ; f 17 ; v 2,2 ; f 3 ; v 1,2,3")
     # (5) random op sequences mixing views, copies and writes: a weighted walk over the shape of the registers
     N = 1500 if ctx.quick else 20000
     for _ in range(N):
